@@ -5,6 +5,13 @@
 // different files; every result must equal the result of the same operation
 // run alone (computed first), and the race detector (the binary is built with
 // -race) must stay silent.
+//
+// Besides three fixed files every plan has a fresh file (index 3) whose stored
+// CREATE statements, and the statements of the "parse-fresh" operation, spell
+// their keywords in a letter case chosen by the plan; the fresh file is first
+// touched in the concurrent phase (its sequential results are computed
+// afterwards), so state that is filled lazily on first use (caches, memo
+// tables keyed by content) is filled while other goroutines run.
 package c20
 
 import (
@@ -13,6 +20,7 @@ import (
 	"fmt"
 	"path/filepath"
 	"runtime"
+	"sort"
 	"strings"
 	"sync"
 	"testing"
@@ -31,8 +39,66 @@ import (
 
 var (
 	env   *sqdb.Env
-	files []string
+	files []string // the three fixed files; run() appends the plan's fresh file as files[3]
 )
+
+const freshFile = 3
+
+var mangled = map[string]bool{"CREATE": true, "TABLE": true, "INDEX": true, "PRIMARY": true, "KEY": true, "COLLATE": true, "WITHOUT": true, "ROWID": true,
+	"ON": true, "UNIQUE": true, "DEFAULT": true, "REFERENCES": true, "DELETE": true, "CASCADE": true, "WHERE": true, "DESC": true, "ASC": true, "SELECT": true,
+	"FROM": true, "NOT": true, "NULL": true, "CHECK": true, "AND": true, "OR": true, "CONSTRAINT": true, "IS": true}
+
+// mangle respells the SQL keywords of an (unquoted, upper case keyword)
+// statement: letter i of the keywords is lower case when bit (off+i) of the
+// pattern is set. Identifiers, type and collation names stay as they are.
+func mangle(sqlText string, bits []bool, off int) string {
+	if len(bits) == 0 {
+		return sqlText
+	}
+	out := []byte(sqlText)
+	n := off
+	for i := 0; i < len(out); {
+		c := out[i]
+		if c == '\'' || c == '"' {
+			j := i + 1
+			for j < len(out) && out[j] != c {
+				j++
+			}
+			i = j + 1
+			continue
+		}
+		if !(c >= 'A' && c <= 'Z' || c >= 'a' && c <= 'z' || c == '_') {
+			i++
+			continue
+		}
+		j := i
+		for j < len(out) && (out[j] >= 'A' && out[j] <= 'Z' || out[j] >= 'a' && out[j] <= 'z' || out[j] == '_' || out[j] >= '0' && out[j] <= '9') {
+			j++
+		}
+		if mangled[string(out[i:j])] {
+			for k := i; k < j; k++ {
+				if bits[n%len(bits)] {
+					out[k] += 'a' - 'A'
+				}
+				n++
+			}
+		}
+		i = j
+	}
+	return string(out)
+}
+
+func schemaStmts(rows int) []string {
+	return []string{
+		"CREATE TABLE t (a INTEGER PRIMARY KEY, b, c TEXT COLLATE NOCASE)",
+		"CREATE INDEX tb ON t (b)",
+		"CREATE INDEX tc ON t (c)",
+		"CREATE TABLE w (k TEXT PRIMARY KEY, v, u) WITHOUT ROWID",
+		"CREATE INDEX wv ON w (v)",
+		fmt.Sprintf("WITH RECURSIVE c(x) AS (SELECT 1 UNION ALL SELECT x+1 FROM c WHERE x < %d) INSERT INTO t (b, c) SELECT x%%7, CASE x%%3 WHEN 0 THEN 'Row' ELSE 'row' END||(x%%11)||hex(zeroblob(x%%40)) FROM c", rows),
+		fmt.Sprintf("WITH RECURSIVE c(x) AS (SELECT 1 UNION ALL SELECT x+1 FROM c WHERE x < %d) INSERT INTO w SELECT 'k'||x, x%%5, hex(zeroblob(700)) FROM c", rows),
+	}
+}
 
 func setup(r *vt.Run, t *testing.T) {
 	var err error
@@ -41,14 +107,9 @@ func setup(r *vt.Run, t *testing.T) {
 	}
 	for i, rows := range []int{5, 60, 700} {
 		path := filepath.Join(env.Dir, fmt.Sprintf("shared%d.sqlite", i))
-		init := []oracle.Stmt{
-			{SQL: "CREATE TABLE t (a INTEGER PRIMARY KEY, b, c TEXT COLLATE NOCASE)"},
-			{SQL: "CREATE INDEX tb ON t (b)"},
-			{SQL: "CREATE INDEX tc ON t (c)"},
-			{SQL: "CREATE TABLE w (k TEXT PRIMARY KEY, v, u) WITHOUT ROWID"},
-			{SQL: "CREATE INDEX wv ON w (v)"},
-			{SQL: fmt.Sprintf("WITH RECURSIVE c(x) AS (SELECT 1 UNION ALL SELECT x+1 FROM c WHERE x < %d) INSERT INTO t (b, c) SELECT x%%7, CASE x%%3 WHEN 0 THEN 'Row' ELSE 'row' END||(x%%11)||hex(zeroblob(x%%40)) FROM c", rows)},
-			{SQL: fmt.Sprintf("WITH RECURSIVE c(x) AS (SELECT 1 UNION ALL SELECT x+1 FROM c WHERE x < %d) INSERT INTO w SELECT 'k'||x, x%%5, hex(zeroblob(700)) FROM c", rows)},
+		var init []oracle.Stmt
+		for _, q := range schemaStmts(rows) {
+			init = append(init, oracle.Stmt{SQL: q})
 		}
 		res, err := env.Create("c20", path, []int{512, 1024, 4096}[i], 0, init)
 		sqdb.MustOK(r, t, "create", res, err, len(init)+2)
@@ -67,9 +128,10 @@ type spec struct {
 	Procs   int
 	Workers [][]opSpec
 	Yield   bool
+	Case    []bool // letter case pattern of the keywords in the fresh file's DDL and in parse-fresh statements
 }
 
-var kinds = []string{"select", "select-wr", "indexed", "indexed-nocase", "indexed-eq", "indexed-wr", "pk", "rowid", "columns", "low-scan", "parse", "compare", "driver", "open-close", "schema"}
+var kinds = []string{"parse-fresh", "select", "select-wr", "indexed", "indexed-nocase", "indexed-eq", "indexed-wr", "pk", "rowid", "columns", "low-scan", "parse", "compare", "driver", "open-close", "schema"}
 
 var statements = []string{
 	"CREATE TABLE t (a INTEGER PRIMARY KEY, b, c TEXT COLLATE NOCASE)",
@@ -90,10 +152,11 @@ func TestC20Concurrent(t *testing.T) {
 			for i := 0; i < n; i++ {
 				var ops []opSpec
 				for j := 0; j < m; j++ {
-					ops = append(ops, opSpec{rapid.SampledFrom(kinds).Draw(t, "kind"), rapid.IntRange(0, 2).Draw(t, "file"), rapid.IntRange(0, 50).Draw(t, "arg")})
+					ops = append(ops, opSpec{rapid.SampledFrom(kinds).Draw(t, "kind"), rapid.IntRange(0, freshFile).Draw(t, "file"), rapid.IntRange(0, 50).Draw(t, "arg")})
 				}
 				s.Workers = append(s.Workers, ops)
 			}
+			s.Case = rapid.SliceOfN(rapid.Bool(), 24, 24).Draw(t, "case")
 			return s
 		},
 		Run: run,
@@ -138,7 +201,7 @@ func (h *handles) close() {
 }
 
 // runOp gives a rendering of the operation's complete result.
-func runOp(h *handles, o opSpec, yield bool) string {
+func runOp(h *handles, o opSpec, yield bool, pattern []bool) string {
 	var b strings.Builder
 	cb := func(row sqlittle.Row) {
 		fmt.Fprintf(&b, "%s;", e1.ShowGot(row))
@@ -214,8 +277,12 @@ func runOp(h *handles, o opSpec, yield bool) string {
 		if err != nil {
 			return fail(err)
 		}
-	case "parse":
-		st, err := sqsql.Parse(statements[o.Arg%len(statements)])
+	case "parse", "parse-fresh":
+		q := statements[o.Arg%len(statements)]
+		if o.Kind == "parse-fresh" {
+			q = mangle(q, pattern, o.Arg)
+		}
+		st, err := sqsql.Parse(q)
 		js, _ := json.Marshal(st) // (no pointer values in the rendering)
 		fmt.Fprintf(&b, "%T %s %v", st, js, err)
 	case "compare":
@@ -227,7 +294,11 @@ func runOp(h *handles, o opSpec, yield bool) string {
 			}
 		}
 	case "driver":
-		rows, err := h.pool[o.File].Query("SELECT a, c FROM t")
+		q := "SELECT a, c FROM t"
+		if o.File == freshFile {
+			q = mangle(q, pattern, o.Arg)
+		}
+		rows, err := h.pool[o.File].Query(q)
 		if err != nil {
 			return fail(err)
 		}
@@ -258,7 +329,34 @@ func runOp(h *handles, o opSpec, yield bool) string {
 	return b.String()
 }
 
+// late: the operation meets state nobody has touched yet in the concurrent
+// phase; its result alone is computed afterwards.
+func late(o opSpec) bool {
+	switch o.Kind {
+	case "parse-fresh":
+		return true
+	case "parse", "compare":
+		return false
+	}
+	return o.File == freshFile
+}
+
 func run(r *vt.Run, t vt.TB, s spec) {
+	// the plan's fresh file: same logical schema, keywords respelled
+	fresh := env.NewPath()
+	defer sqdb.Remove(fresh)
+	var init []oracle.Stmt
+	for i, q := range schemaStmts(25) {
+		if i < 5 {
+			q = mangle(q, s.Case, i*5)
+		}
+		init = append(init, oracle.Stmt{SQL: q})
+	}
+	res, err := env.Create("c20f", fresh, 1024, 0, init)
+	sqdb.MustOK(r, t, "create fresh", res, err, len(init)+2)
+	env.O.Close("c20f")
+	files = append(files[:freshFile:freshFile], fresh)
+
 	pool := map[int]*sql.DB{}
 	for i, f := range files {
 		db, err := sql.Open("sqlittle", f)
@@ -268,17 +366,19 @@ func run(r *vt.Run, t vt.TB, s spec) {
 		pool[i] = db
 		defer db.Close()
 	}
-	// every operation alone
+	// every operation alone (those on fresh state: after the concurrent phase)
 	want := map[opSpec]string{}
 	seqH := &handles{hi: map[int]*sqlittle.DB{}, lo: map[int]*sdb.Database{}, pool: pool}
-	nops := 0
+	nops, nlate := 0, 0
 	sameFile := map[int]int{}
 	for _, w := range s.Workers {
 		seen := map[int]bool{}
 		for _, o := range w {
 			nops++
-			if _, ok := want[o]; !ok {
-				want[o] = runOp(seqH, o, false)
+			if late(o) {
+				nlate++
+			} else if _, ok := want[o]; !ok {
+				want[o] = runOp(seqH, o, false, s.Case)
 			}
 			if !seen[o.File] {
 				seen[o.File] = true
@@ -293,14 +393,22 @@ func run(r *vt.Run, t vt.TB, s spec) {
 			shared = true
 		}
 	}
-	r.Case(s, len(s.Workers) >= 2 && shared, fmt.Sprintf("procs=%d", s.Procs), fmt.Sprintf("workers<=%d", ((len(s.Workers)+3)/4)*4), fmt.Sprintf("same-file=%v", shared), fmt.Sprintf("yield=%v", s.Yield))
+	r.Case(s, len(s.Workers) >= 2 && shared, fmt.Sprintf("procs=%d", s.Procs), fmt.Sprintf("workers<=%d", ((len(s.Workers)+3)/4)*4), fmt.Sprintf("same-file=%v", shared), fmt.Sprintf("yield=%v", s.Yield),
+		fmt.Sprintf("fresh-state-shared=%v", sameFile[freshFile] >= 2))
 	r.Count("operations", nops)
+	r.Count("operations-on-fresh-state", nlate)
 
 	old := runtime.GOMAXPROCS(s.Procs)
 	defer runtime.GOMAXPROCS(old)
 	var wg sync.WaitGroup
 	var mu sync.Mutex
 	var problems []string
+	type lateResult struct {
+		wi, oi int
+		o      opSpec
+		got    string
+	}
+	var lateGot []lateResult
 	start := make(chan struct{})
 	for wi, w := range s.Workers {
 		wg.Add(1)
@@ -317,8 +425,12 @@ func run(r *vt.Run, t vt.TB, s spec) {
 			defer h.close()
 			<-start
 			for oi, o := range w {
-				got := runOp(h, o, s.Yield)
-				if got != want[o] {
+				got := runOp(h, o, s.Yield, s.Case)
+				if late(o) {
+					mu.Lock()
+					lateGot = append(lateGot, lateResult{wi, oi, o, got})
+					mu.Unlock()
+				} else if got != want[o] {
 					mu.Lock()
 					problems = append(problems, fmt.Sprintf("worker %d op %d %+v: concurrent result differs from the result alone:\n  alone:      %.300s\n  concurrent: %.300s", wi, oi, o, want[o], got))
 					mu.Unlock()
@@ -328,6 +440,23 @@ func run(r *vt.Run, t vt.TB, s spec) {
 	}
 	close(start)
 	wg.Wait()
+	runtime.GOMAXPROCS(old)
+	seqH = &handles{hi: map[int]*sqlittle.DB{}, lo: map[int]*sdb.Database{}, pool: pool}
+	sort.Slice(lateGot, func(i, j int) bool {
+		if lateGot[i].wi != lateGot[j].wi {
+			return lateGot[i].wi < lateGot[j].wi
+		}
+		return lateGot[i].oi < lateGot[j].oi
+	})
+	for _, l := range lateGot {
+		if _, ok := want[l.o]; !ok {
+			want[l.o] = runOp(seqH, l.o, false, s.Case)
+		}
+		if l.got != want[l.o] {
+			problems = append(problems, fmt.Sprintf("worker %d op %d %+v (first use of fresh state): concurrent result differs from the result alone:\n  alone:      %.300s\n  concurrent: %.300s", l.wi, l.oi, l.o, want[l.o], l.got))
+		}
+	}
+	seqH.close()
 	if len(problems) > 0 {
 		r.Violation(t, s, "result-differs-under-concurrency", "%d problems with %d goroutines (GOMAXPROCS %d); first: %s", len(problems), len(s.Workers), s.Procs, problems[0])
 	}
